@@ -378,8 +378,10 @@ theorem apiSpawn_le (s : Sys) (t n) : SysLe t s (apiSpawn s t n) := by
   · peel (setPc_le _ _ _); peel (emit_le _ _); exact spawnProc_le _ _
   all_goals (peel (setPc_le _ _ _); exact spawnProc_le _ _)
 
+theorem addDone_le (s : Sys) (t : Tid) (i : IId) : SysLe t s (addDone s i) := by
+  unfold addDone; done_le
 theorem doSkip_le (s : Sys) (t i) : SysLe t s (doSkip s t i) := by
-  unfold doSkip; exact (onProcessEnd_le _ _ _).then (setPc_le _ _ _)
+  unfold doSkip; exact (addDone_le _ _ _).then ((onProcessEnd_le _ _ _).then (setPc_le _ _ _))
 
 theorem afterDeps_le (s : Sys) (t) : SysLe t s (afterDeps s t) := setPc_le _ _ _
 
